@@ -67,6 +67,9 @@ Box == <<
   [x |-> IntV(-1), y |-> IntV(1), z |-> IntV(2), p |-> IntV(-2), b |-> BoolV(TRUE),
    f |-> [k |-> "fn", name |-> "f"], t |-> [k |-> "tup", items |-> << IntV(10), IntV(20), IntV(30) >>]],
   [x |-> IntV(3), y |-> FracV(-3, 2), z |-> IntV(0), p |-> IntV(1), b |-> BoolV(FALSE),
+   f |-> [k |-> "fn", name |-> "f"], t |-> [k |-> "tup", items |-> << IntV(10), IntV(20), IntV(30) >>]],
+  \* zero where an exponent may stand (0**0 = 1)
+  [x |-> IntV(1), y |-> IntV(0), z |-> IntV(3), p |-> IntV(2), b |-> BoolV(TRUE),
    f |-> [k |-> "fn", name |-> "f"], t |-> [k |-> "tup", items |-> << IntV(10), IntV(20), IntV(30) >>]]
 >>
 
